@@ -10,13 +10,40 @@ THEOREMS = ["UrcuVerif.Poll.poll_sound", "UrcuVerif.Poll.poll_monotone", "UrcuVe
 TRUSTED = ["Lean 4.33 kernel; axioms ⊆ {propext, Classical.choice, Quot.sound}",
            "call_rcu abstracted by C03's guarantee (callback runs after a grace period that started after it was queued)",
            "grace period abstracted by GpSpec (C01)",
-           "tie: harness/scen/poll.c + Driver/Poll.lean (operation-sequence replay; each API body is atomic under the mutex)",
+           "tie: harness/scen/poll.c (sequential op sequences) and harness/scen/poll_conc.c (the same real file under the cooperative runtime: threads are preempted at every mutex acquisition/release; operations ordered by the ticket taken when the mutex is acquired) + Driver/Poll.lean",
            "fewer than 2^63 grace periods per run (signed_cmp_correct)"]
 
 
 def build():
     ok, log = vlib.cc("poll", [os.path.join(vlib.HARN, "scen", "poll.c")])
-    return ok, log
+    if not ok:
+        return ok, log
+    return vlib.cc("poll_conc", [os.path.join(vlib.HARN, "scen", "poll_conc.c"), os.path.join(vlib.HARN, "rt", "vrt.c")], ["-w"])
+
+
+def run_conc(seed, hold=2, pops=12, rops=20):
+    """concurrent scenario under the cooperative runtime; ops are ordered by the ticket taken at their linearisation point"""
+    args = [os.path.join(vlib.BUILD, "poll_conc"), "--seed", str(seed), "--pswitch", str(10 + (seed * 13) % 60),
+            "--pollers", str(1 + seed % 3), "--readers", str(1 + seed % 4), "--pops", str(pops), "--rops", str(rops),
+            "--hold", str(hold)]
+    if seed % 3 == 0:
+        args += ["--base", str((1 << 64) - 1 - seed % 5)]
+    rc, out, err = vlib.sh2(args, timeout=60)
+    if rc not in (0, 3):
+        return "crash", {"cmd": args, "rc": rc, "stderr": err[-600:]}, ""
+    ops = []
+    for ln in out.splitlines():
+        if ln.startswith("SEQ "):
+            w = ln.split(" ", 2)
+            ops.append((int(w[1]), w[2]))
+    ops.sort(key=lambda x: x[0])
+    text = "\n".join(o for _, o in ops) + "\n"
+    drc, dout = vlib.sh([os.path.join(vlib.LEAN, ".lake", "build", "bin", "drv_poll")], inp=text.encode(), timeout=120)
+    if rc == 3:
+        return "oracle", {"cmd": args, "oracle": err.strip().splitlines()[:4], "driver": dout.strip().splitlines()[:2]}, dout
+    if drc != 0:
+        return "diverge", {"cmd": args, "driver": dout.strip().splitlines()[:2]}, dout
+    return "ok", {"cmd": args, "ops": len(ops)}, dout
 
 
 def run_one(chk, seed, nops, base=None):
@@ -65,6 +92,26 @@ def run(chk):
         else:
             bad = (v, d)
             break
+    # concurrent part: real mutex boundaries under the cooperative scheduler
+    nconc = 120 if chk.tier == "quick" else 3000
+    chist = {}
+    if not bad:
+        for k in range(nconc):
+            sd = chk.seed * 100000 + 70000 + k
+            v, d, dout = run_conc(sd, hold=2 + k % 7)
+            chk.cov["evaluations"] += 1
+            if v == "ok":
+                for x in dout.split()[2:]:
+                    if "=" in x:
+                        kk, vv = x.split("=")
+                        chist[kk] = chist.get(kk, 0) + int(vv)
+                if k < 1:
+                    chk.sample({"concurrent": " ".join(d["cmd"][1:]), "driver": dout.strip()})
+            else:
+                d["scenario"] = "poll_conc"
+                bad = (v, d)
+                break
+    chk.cov["concurrent_branch_histogram"] = chist
     chk.cov["traces_validated_against_impl"] = chk.cov["evaluations"]
     chk.cov["distinct_nontrivial"] = len(nontriv)
     chk.cov["rule"] = ("operation sequences (start_poll/poll/worker/gp start/gp end/lock/unlock) drawn from VERIF_SEED over "
@@ -78,7 +125,13 @@ def run(chk):
         elif v == "diverge":
             # correspondence broken: look for a concrete failing input with the oracle on more sequences
             found = None
-            for k in range(3000):
+            if d.get("scenario") == "poll_conc":
+                for k in range(4000):
+                    v2, d2, _ = run_conc(chk.seed * 100000 + 200000 + k, hold=4 + k % 6, pops=20, rops=60)
+                    if v2 == "oracle":
+                        found = d2
+                        break
+            for k in range(3000 if not found else 0):
                 sd = chk.seed * 100000 + 50000 + k
                 v2, d2, _ = run_one(chk, sd, 1500)
                 if v2 == "oracle":
@@ -99,6 +152,10 @@ def replay(rp):
     if not ok:
         print(log)
         return 2
+    if "cmd" in rp and "poll_conc" in rp["cmd"][0]:
+        rc, out, err = vlib.sh2([os.path.join(vlib.BUILD, "poll_conc")] + [str(x) for x in rp["cmd"][1:]], timeout=60)
+        print(err)
+        return 1 if rc != 0 else 0
     if "cmd" in rp:
         args = [os.path.join(vlib.BUILD, "poll")] + [str(x) for x in rp["cmd"][1:]]
         rc, out, err = vlib.sh2(args, timeout=60)
